@@ -64,6 +64,10 @@ func routeInstances(tier string) []explore.Params {
 		}
 		return out
 	}
+	// a slow server factory must not delay the announcement of the listener: dial first, accept 3.5 s later, factory 2.5 s
+	for _, s := range []string{"h", "p"} {
+		out = append(out, explore.Params{"pat": s + "D3500", "factory": "2500"}, explore.Params{"pat": s + "A0", "factory": "2500"})
+	}
 	// staggered pairs on one dialling side: id B is accepted at 0 and dialled while id A's dial is still
 	// waiting for its accept (a dial must not be delayed by another id's pending dial)
 	for _, s := range []string{"h", "p"} {
@@ -126,6 +130,9 @@ func init() {
 						x.Pause(gap)
 					}
 					ab.AcceptAndServe(id, func(opts []grpc.ServerOption) *grpc.Server {
+						if f := ms(p["factory"]); f > 0 { // a server factory that takes its time (it runs on the accepting side)
+							x.Pause(f)
+						}
 						s := grpc.NewServer(opts...)
 						grpctest.RegisterPingPongServer(s, &ppServer{tag: tag})
 						return s
